@@ -473,7 +473,7 @@ func (fc *funcContext) translateStmt(stmt ast.Stmt, label *types.Label) {
 		chanType := fc.typeOf(s.Chan).Underlying().(*types.Chan)
 		call := &ast.CallExpr{
 			Fun:  fc.newIdent("$send", types.NewSignatureType(nil, nil, nil, types.NewTuple(types.NewVar(0, nil, "", chanType), types.NewVar(0, nil, "", chanType.Elem())), nil, false)),
-			Args: []ast.Expr{s.Chan, fc.newIdent(fc.translateImplicitConversionWithCloning(s.Value, chanType.Elem()).String(), chanType.Elem())},
+			Args: []ast.Expr{fc.sendChanOperand(s), fc.newIdent(fc.translateImplicitConversionWithCloning(s.Value, chanType.Elem()).String(), chanType.Elem())},
 		}
 		fc.Blocking[call] = true
 		fc.translateStmt(&ast.ExprStmt{X: call}, label)
@@ -496,7 +496,7 @@ func (fc *funcContext) translateStmt(stmt ast.Stmt, label *types.Label) {
 				channels = append(channels, fc.formatExpr("[%e]", astutil.RemoveParens(comm.Rhs[0]).(*ast.UnaryExpr).X).String())
 			case *ast.SendStmt:
 				chanType := fc.typeOf(comm.Chan).Underlying().(*types.Chan)
-				channels = append(channels, fc.formatExpr("[%e, %s]", comm.Chan, fc.translateImplicitConversionWithCloning(comm.Value, chanType.Elem())).String())
+				channels = append(channels, fc.formatExpr("[%e, %s]", fc.sendChanOperand(comm), fc.translateImplicitConversionWithCloning(comm.Value, chanType.Elem())).String())
 			default:
 				panic(fmt.Sprintf("unhandled: %T", comm))
 			}
@@ -545,6 +545,21 @@ func (fc *funcContext) translateStmt(stmt ast.Stmt, label *types.Label) {
 		panic(fmt.Sprintf("Unhandled statement: %T\n", s))
 
 	}
+}
+
+// sendChanOperand returns the channel operand of a send statement. The value operand is translated ahead of the
+// $send call; if its evaluation may block (and is therefore written out in front of the statement), the channel
+// operand, which Go evaluates first, is evaluated into a temporary variable before it.
+func (fc *funcContext) sendChanOperand(s *ast.SendStmt) ast.Expr {
+	if !fc.Blocking[s.Value] || fc.pkgCtx.Types[s.Chan].Value != nil {
+		return s.Chan
+	}
+	if _, isIdent := astutil.RemoveParens(s.Chan).(*ast.Ident); isIdent {
+		return s.Chan
+	}
+	chanVar := fc.newLocalVariable("_chan")
+	fc.Printf("%s = %s;", chanVar, fc.translateExpr(s.Chan))
+	return fc.newIdent(chanVar, fc.typeOf(s.Chan))
 }
 
 func (fc *funcContext) translateBranchingStmt(caseClauses []*ast.CaseClause, defaultClause *ast.CaseClause, canBreak bool, translateCond func(ast.Expr) *expression, label *types.Label, flatten bool) {
